@@ -16,8 +16,8 @@ class C08Mixin(object):
         out = {"key": list(k), "reg": self.ident(obj), "cls": cls}
         for n in ("number", "symbol", "name", "isotope", "charge"):
             try:
-                v = getattr(obj, n)
-                out[n] = v if isinstance(v, (int, str)) and not isinstance(v, bool) else C.canon(v)
+                v = C._py(getattr(obj, n))
+                out[n] = v if isinstance(v, (int, float, str)) and not isinstance(v, bool) else C.canon(v)
             except Exception as e:  # noqa: BLE001
                 out[n] = ["E", type(e).__name__]
         return out
@@ -42,8 +42,20 @@ class C08Mixin(object):
             fp[name] = [len(els), ni, nq]
         return fp
 
+    @staticmethod
+    def _dec(x):
+        """Keys that compare (and hash) equal to a valid integer key but have another type."""
+        if isinstance(x, list) and len(x) == 2 and x[0] in ("f", "np", "np32"):
+            import numpy as np
+            return {"f": float, "np": np.int64, "np32": np.int32}[x[0]](x[1])
+        return x
+
     def _lookup(self, tbl, route, arg):
         t = self.table(tbl)
+        if isinstance(arg, list) and route in ("iso", "ion", "isoion"):
+            arg = [self._dec(x) for x in arg]
+        else:
+            arg = self._dec(arg)
         if route == "Z":
             return t[arg]
         if route == "symbol":
